@@ -988,6 +988,32 @@ fn op_arm_stored(_ctx: Ctx, c: u8) {
     }
 }
 
+fn op_arm_drop_op(c: u8, into: u8, load: bool) {
+    let Some(cont) = get_cont(c) else { return };
+    let addr = peek_cont_ptr(&cont);
+    let code = 1 + ((into & 0x3f) << 1) + load as u8;
+    if addr != 0 && arena::arm_action_at(addr, code) {
+        w(|w| *w.extra_counts.entry("destructors_armed_with_nested_op".into()).or_insert(0) += 1);
+    }
+}
+
+/// Called from a pointee's destructor that was armed with a nested operation: user code inside
+/// the crate's call that calls back into the crate, on whatever simulated thread happens to
+/// release the last count.
+pub fn run_drop_action(code: u8) {
+    let code = code - 1;
+    let (into, load) = (code >> 1, code & 1 == 1);
+    let me = rt::current();
+    let th = w(|w| w.tids.iter().position(|t| *t == Some(me)).unwrap_or(0));
+    let ctx = Ctx { th };
+    w(|w| *w.extra_counts.entry("nested_ops_run_by_destructors".into()).or_insert(0) += 1);
+    if load {
+        op_load(ctx, into, None);
+    } else {
+        op_store(ctx, into, V::New);
+    }
+}
+
 fn op_spawn(_ctx: Ctx, t: u8) {
     let ok = w(|w| (t as usize) < w.tids.len() && w.tids[t as usize].is_none() && !w.spawned[t as usize]);
     if !ok {
@@ -1116,6 +1142,7 @@ pub fn exec_op(ctx: Ctx, op: &Op) {
         Op::ArmStored { c } => op_arm_stored(ctx, *c),
         Op::ArmProjPanic { k } => crate::extras::op_arm_proj_panic(*k),
         Op::StdArc { variant } => crate::extras::op_std_arc(ctx, *variant),
+        Op::ArmDropOp { c, into, load } => op_arm_drop_op(*c, *into, *load),
         Op::Spawn { t } => op_spawn(ctx, *t),
         Op::Join { t } => op_join(ctx, *t),
         Op::TlsOp { ops } => op_tls(ctx, ops),
